@@ -230,8 +230,18 @@ class Ctx:
         return parse_verdicts(out)
 
 
+def out_root():
+    # PV_OUT_DIR is set by tools/try_mutant.py only: a run against a seeded change must not overwrite the evidence
+    # and replays of the unchanged tree
+    o = os.environ.get("PV_OUT_DIR")
+    if o:
+        Path(o).mkdir(parents=True, exist_ok=True)
+        return Path(o)
+    return VERIF
+
+
 def write_replay(prop, name, payload):
-    d = VERIF / "replays"
+    d = out_root() / "replays"
     d.mkdir(exist_ok=True)
     f = d / f"{prop}_{name}.json"
     f.write_text(json.dumps(payload, indent=1))
@@ -239,7 +249,7 @@ def write_replay(prop, name, payload):
 
 
 def write_evidence(prop, ev):
-    d = VERIF / "evidence"
+    d = out_root() / "evidence"
     d.mkdir(exist_ok=True)
     (d / f"{prop}.json").write_text(json.dumps(ev, indent=1))
 
